@@ -99,8 +99,8 @@ theorem csd_cosine_window_eq_csd (a : ℕ → ℝ) (M n k : ℕ) (A p : ℝ) (ha
     csdW n (cosWin a (M + 1) n) (toneSig n k A p) k = csd n (toneSig n k A p) k :=
   csdW_cosWin_tone_eq a M n k A p ha hk hkn
 
-/-- **Tone law for SciPy's `hann`, `hamming`, `blackman`, `flattop`** (coefficient tables of
-`scipy.signal.windows`, `w.terms` = 2, 2, 3, 5 coefficients; `w.window n` is compared with
+/-- **Tone law for SciPy's `hann`, `hamming`, `blackman`, `flattop`, `nuttall`, `blackmanharris`** (coefficient
+tables of `scipy.signal.windows`, `w.terms` = 2, 2, 3, 5, 4, 4 coefficients; `w.window n` is compared with
 `get_window(name, n)` on every windowed case of the harness): `A·e^{ip}` at every bin `k` with
 `w.terms - 1 < k` and `2(k + w.terms - 1) < n`. -/
 theorem csd_window_tone (w : CosWindow) (n k : ℕ) (A p : ℝ) (hk : w.terms - 1 < k)
@@ -112,7 +112,7 @@ theorem csd_window_tone (w : CosWindow) (n k : ℕ) (A p : ℝ) (hk : w.terms - 
 
 /-- The property's wording: *every bin farther than the window's main-lobe width from DC and Nyquist*.
 The full (null-to-null) main lobe of a cosine-sum window with `w.terms` coefficients is `2·w.terms` bins wide
-(hann / hamming 4, blackman 6, flattop 10 — the widths the oracle uses). -/
+(hann / hamming 4, blackman 6, flattop 10, nuttall / blackmanharris 8 — the widths the oracle uses). -/
 theorem csd_window_tone_mainlobe (w : CosWindow) (n k : ℕ) (A p : ℝ) (hk : 2 * w.terms < k)
     (hkn : 2 * (k + 2 * w.terms) < n) :
     (csdW n (w.window n) (toneSig n k A p) k).re = A * Real.cos p ∧
@@ -148,7 +148,7 @@ theorem psd_cosine_window_tone (a : ℕ → ℝ) (M n k avg e : ℕ) (A p : ℝ)
     psdW (avg * n + e) avg (cosWin a (M + 1) n) s k = |A| :=
   psdW_tone_trim a M n k avg e A p ha he hk hkn s hs
 
-/-- …in particular through SciPy's four windows. -/
+/-- …in particular through SciPy's six windows above. -/
 theorem psd_window_tone (w : CosWindow) (n k avg e : ℕ) (A p : ℝ) (he : e < avg) (hk : w.terms - 1 < k)
     (hkn : 2 * (k + (w.terms - 1)) < n) (s : ℕ → ℝ)
     (hs : ∀ r j, r < avg → j < n → s (r * n + j) = toneSig n k A p j) :
@@ -197,6 +197,7 @@ example := csd_cosine_window_tone (fun m => if m = 0 then 1 else 2) 3 32 5 3 (1/
   (by norm_num)
 example := csd_window_tone .flattop 32 5 3 (1/2) (by decide) (by decide)
 example := csd_window_tone .hamming 16 2 3 (1/2) (by decide) (by decide)
+example := csd_window_tone .nuttall 32 4 3 (1/2) (by decide) (by decide)
 example := csd_window_tone_mainlobe .blackman 64 7 3 (1/2) (by decide) (by decide)
 example := psd_tone 8 1 4 3 3 (1/2) (by norm_num) (by norm_num) (by norm_num)
   (fun i => if i < 32 then toneSig 8 1 (3 : ℝ) (1/2) (i % 8) else 7)
